@@ -2261,6 +2261,8 @@ def run(ctx):
     _timed(ctx, "cross-kind", run_cross_kind, ctx)
     _timed(ctx, "stand-in", run_stand_in_scalar, ctx)
     _timed(ctx, "stand-in", run_stand_in_variables, ctx)
+    from corr import C07_regok
+    _timed(ctx, "regok-witness", C07_regok.run, ctx)
     _timed(ctx, "code-defaults", run_code_defaults, ctx)
     _timed(ctx, "default-shapes", run_default_shapes, ctx)
     _timed(ctx, "enum-identity", run_enum_identity, ctx)
@@ -2332,6 +2334,11 @@ def replay(ctx, data, record=False):
     if inp.get("check") == "stand-in":
         c2 = type(ctx)(ctx.prop, ctx.tier, ctx.seed)
         run_stand_in_scalar(c2)
+        return not any(f["signature"] == data.get("signature") for f in c2.found)
+    if inp.get("check") == "regok-witness":
+        from corr import C07_regok
+        c2 = type(ctx)(ctx.prop, ctx.tier, ctx.seed)
+        C07_regok.run(c2)
         return not any(f["signature"] == data.get("signature") for f in c2.found)
     if inp.get("check") == "nested-var":
         c2 = type(ctx)(ctx.prop, ctx.tier, ctx.seed)
